@@ -110,6 +110,8 @@ class Acc:
 
     MAX_SAMPLES_PER_SUB = 10
     MAX_NT_SET = 3_000_000
+    FAIL_BUDGET = 300  # failing cases per process after which further cases are skipped (enough evidence; a
+    #                    defect that makes every later call slower or bigger must not take the machine down)
 
     def __init__(self, prop, known=None):
         self.prop = prop
@@ -125,6 +127,7 @@ class Acc:
         self.notes = collections.Counter()
         self.known = known or []  # list of (id, predicate(sub, inp, fail) -> bool)
         self.exhaustive = {}  # sub -> description of a completely enumerated space
+        self.n_fail_cases = 0
 
     # -- recording ---------------------------------------------------------------------------
     def record(self, sub, inp, res, distinct_by_construction=False):
@@ -170,7 +173,12 @@ class Acc:
 
     def run(self, sub, oracle, inp, distinct_by_construction=False):
         """Run oracle(inp), turning exceptions raised by the code under test into failures."""
+        if self.n_fail_cases >= self.FAIL_BUDGET:
+            self.notes["skipped-after-fail-budget"] += 1
+            return None
         res = eval_oracle(self.prop, sub, oracle, inp)
+        if res[0] is not None:
+            self.n_fail_cases += 1
         return self.record(sub, inp, res, distinct_by_construction)
 
     # -- transport ---------------------------------------------------------------------------
@@ -338,17 +346,30 @@ def _worker(task):
         return dict(harness_error=f"task {modname}.{fn}{_short(args, 200)}:\n{traceback.format_exc()}")
 
 
-def pmap(acc, modname, tasks, nproc=None):
-    """tasks: list of (function name, args tuple).  Results are merged into acc."""
+def pmap(acc, modname, tasks, nproc=None, deadline_s=None):
+    """tasks: list of (function name, args tuple).  Results are merged into acc.  A wall-clock ceiling
+    (VERIF_DEADLINE_S, default 25 min quick / 5 h thorough) ends the run: what finished is kept; if
+    nothing failed the run is inconclusive (harness error, exit 2), never a violation."""
     nproc = nproc or NPROC
+    if deadline_s is None:
+        deadline_s = float(os.environ.get("VERIF_DEADLINE_S") or (18000 if os.environ.get("_VERIF_TIER") == "thorough" else 1500))
     full = [(acc.prop, modname, fn, args) for fn, args in tasks]
+    results = []
+    timed_out = 0
     if nproc <= 1 or len(full) <= 1:
-        results = map(_worker, full)
+        results = list(map(_worker, full))
     else:
         ctx = multiprocessing.get_context("fork")
         pool = ctx.Pool(min(nproc, len(full)), maxtasksperchild=None)
+        t_end = time.time() + deadline_s
         try:
-            results = list(pool.imap_unordered(_worker, full, chunksize=1))
+            pending = [pool.apply_async(_worker, (t,)) for t in full]
+            for r in pending:
+                left = t_end - time.time()
+                try:
+                    results.append(r.get(timeout=max(0.01, left)))
+                except multiprocessing.TimeoutError:
+                    timed_out += 1
         finally:
             pool.terminate()
             pool.join()
@@ -356,6 +377,10 @@ def pmap(acc, modname, tasks, nproc=None):
         if "harness_error" in ex:
             raise HarnessError(ex["harness_error"])
         acc.merge(ex)
+    if timed_out:
+        acc.notes["tasks-timed-out"] += timed_out
+        if not acc.fails:
+            raise HarnessError(f"{acc.prop}: {timed_out} of {len(full)} tasks did not finish within {deadline_s:.0f}s: inconclusive")
 
 
 def chunks(n_total, n_chunks):
